@@ -13,8 +13,19 @@ expectation "same code file" which is a consequence of (a), not a computed value
     ATMEL, -t, -x, -n, -q, -A, -r, -E, -gnuerrors, -LISTRADIX, -P, -M, -h, -SPLITBYTE) + option source (argv | ASCMD |
     @keyfile | ASCMD=@keyfile) + working directory + output path (-o) + LANG/LC_ALL in {C, de_DE, en_US}.  TLC builds a
     pairwise covering array greedily from seeded random candidates and re-checks PairwiseCovered from scratch
-    (about 32 vectors).  Every vector is applied to golden sources (quick: 40 seed-chosen, thorough: all 201) and
-    to generated programs (structures, forward references, warnings, errors).
+    (about 32 vectors), and derives three more designs from it, each certified by an invariant: Singles (the plain
+    configuration with exactly one factor changed: every option value alone, 41 vectors), AllOn (everything switched
+    on at once) and Rotation(r) (a 1-wise cover of all option values - 6-7 vectors of the pairwise sample - starting
+    at its r-th vector).
+    quick: ALL 201 golden sources + 14 generated programs; source number n runs under Rotation(n mod 32) and AllOn, so
+    every (source, option value) pair is exercised and the corpus as a whole uses the entire pairwise sample (for the
+    one megabyte source, t_m16, the listing-producing factors are switched off in the quick tier).
+    thorough: every source under all vectors of the pairwise sample and AllOn.
+    Both tiers: the generated programs additionally run under every one of the Singles.  The generated programs
+    concentrate the places where numbers are turned into text and used again or formatted by the private printf:
+    68K packed decimal (DC.P, FMOVE.P #imm), IEEE/TI/1750 float data in every size, arguments of user FUNCTIONs,
+    string functions (VAL, SUBSTR, STRSTR, UPSTRING ...), SH7000 literal pools, temporary / nameless symbols and
+    REPT/IRP counters beyond 255, the predefined flag symbols, structures, macros, warnings and errors.
     Verdict-bearing: the code file of every vector run is byte-identical to the code file of the plain run
     (`asl <asflags> -q -i include src`), or absent in both; a second plain run and a second run of two vectors
     reproduce code file, and listing / MAP / NoICE / share / macro outputs after masking the date/time stamp.
@@ -31,7 +42,8 @@ that are not installed (only the LANG/LC_ALL strings matter to nlmessages.c).  T
 code-affecting options; those come from the golden test's asflags and stay in argv.
 
 Mutations of the real code (selftest/b218_mutants.py, scratch copies, all compile; `./check C17 --selftest`), every one
-reported as VIOLATION by the quick tier: -s also setting DefRelaxedMode; debug bookkeeping (-g) advancing the PC of
+reported as VIOLATION by the quick tier: -h changing the exponent letter searched by the packed-decimal converter (motpseudo.c ConvertMotoFloatDec: caught on
+t_dc/t_68kfloat.. and g_packed under the single option -h); -s also setting DefRelaxedMode; debug bookkeeping (-g) advancing the PC of
 instructions longer than 2; -u shortening 3-byte instructions; ASCMD=@keyfile implying -relaxed; LC_ALL=de* implying
 -relaxed.  (A mutant naming the -E log like the code file loses diagnostics but not code: not C17's business.)
 """
@@ -52,6 +64,28 @@ DEFAULT_VEC = {"L": "none", "u": False, "C": False, "s": False, "I": False, "g":
                "P": False, "M": False, "h": False, "split": "none", "src": "argv", "cwd": "parent",
                "out": "default", "lang": "C", "langvar": "LANG"}
 GEN_PROGRAMS = {
+    # ---- places where numbers are turned into text and parsed again / formatted by the private printf -----------------
+    # 68K packed decimal (DC.P, FMOVE.P #imm: sprintf("%0.16e") split at the exponent letter), IEEE data in all sizes
+    "g_packed": "\tcpu\t68040\n\tfpu\ton\n\tdc.p\t1.5e10,-2.25e-3,1e100,123456789.0e5,0.0,-1.0,6.02e23,1e-100\n"
+                "\tfmove.p\t#1.5e3,fp0\n\tfmove.p\t#-7.25e-12,fp1\n\tdc.s\t1.5,-2.5e10,1e-30\n\tdc.d\t1.5e100,-3.25e-200\n"
+                "\tdc.x\t3.14159,1e1000\n\tfmove.x\t#2.5e17,fp2\n\tfmove.d\t#1e10,fp3\n",
+    "g_float86": "\tcpu\t8086\n\tdd\t1.5,2.5e10,-1e-30\n\tdq\t1.5e100,-3.25e-200\n\tdt\t3.14159e10,-1e1000\n"
+                 "\tdw\t1234h,0abcdh\n\tdd\t12345678h\n",
+    "g_floatmisc": "\tcpu\tz80\n\tdd\t1.5e10\n\tdq\t-2.5e-100\n\tcpu\t320C30\n\tsingle\t1.5e10,-2.25e-3\n\textended\t3.25e20\n"
+                   "\tcpu\t1750\n\tfloat\t10.0,0.25,-1.0\n\textended 1.5e3\n\tcpu\t80c166\n\tdd\t1.5e10\n",
+    # literal pools (names of literal symbols are built from the values)
+    "g_literal": "\tcpu\tsh7600\n\tmov\t#$1234,r3\n\tmov.l\t#$12345678,r4\n\tmov\t#$8000,r5\n\tnop\n\tltorg\n"
+                 "\tcompliterals on\n\tmov.l\t#$12345678,r6\n\tmov\t#$1234,r7\n\tnop\n\tltorg\n",
+    # user functions (arguments substituted as text), string functions converting between numbers and text
+    "g_strfun": "\tcpu\tz80\nhi\tfunction x,(x>>8)&255\nlo\tfunction x,x&255\nsq\tfunction x,x*x\nfl\tfunction x,x*1.5\n"
+                "\tdb\thi(1234h),lo(1234h),hi(70000),lo(sq(300))\n\tdb\tint(fl(100.0))&255\n"
+                "\tdb\tval(\"12h\"),val(\"300\")>>8,val(\"1234h\")&255\n\tdb\tstrlen(\"hello\")+strlen(upstring(\"abc\"))\n"
+                "\tdb\tsubstr(\"0123456789\",2,3)\n\tdb\tstrstr(\"hello world\",\"wor\")&255\n"
+                "\tdb\tval(substr(\"12345\",1,3))&255\n\tdb\tcharfromstr(\"abc\",1)\nv\tset\t5\n\trept\t300\nv\tset\tv+257\n\tendm\n"
+                "\tdb\tv&255,(v>>8)&255\n\tdw\t1000*1000>>4\n",
+    # temporary / nameless symbols and loop counters beyond 255 (names and counters are formatted internally)
+    "g_tempsym": "\tcpu\tz80\n\trept\t260\n\tjr\t$$skip\n\tnop\n$$skip:\n\tendm\n-\tnop\n\tjr\t-\n\tjr\t+\n\tnop\n+\tnop\n"
+                 "cnt\tset\t0\n\tirp\tx,100h,2000h,30000h\n\tdw\tx>>4\ncnt\tset\tcnt+x\n\tendm\n\tdw\tcnt&0ffffh\n",
     # the predefined flag symbols show the invocation defaults (-relaxed, -supmode, -compmode, -U are code-affecting)
     "g_flags": "\tcpu\t68000\n\tdc.b\tRELAXED+1,INSUPMODE+1,COMPMODE+1,CASESENSITIVE+1,PADDING+1,MOMPASS\n\tdc.b\t\"a\">\"A\",0\n",
     "g_func": "\tcpu\tz80\nhi\tfunction x,(x>>8)&255\nlo\tfunction x,x&255\n\tdb\thi(1234h),lo(1234h),hi(70000)\n",
@@ -59,7 +93,7 @@ GEN_PROGRAMS = {
     "g_warn": "\tcpu\tz80\n\tnop\n\tds\t0\n\twarning \"w\"\n\tjp\tfwd\nfwd:\tnop\n",
     "g_err": "\tcpu\t8051\n\tnop\n\tbogus\n\tnop\n",
     "g_macro": "\tcpu\t68000\nm\tmacro\tx\n\tdc.b\tx\n\tendm\n\tm\t1\n\tm\t2\n\tsection\ts1\nl1:\tdc.w\tl2-l1\nl2:\n\tendsection\n",
-    "g_expr": "\tcpu\t6502\nv\tset\t5\n\trept\t3\n\tdb\tv\nv\tset\tv*2\n\tendm\n\tif\tv>30\n\tdb\t\"big\"\n\telse\n\tdb\t\"small\"\n\tendif\n",
+    "g_expr": "\tcpu\tz80\nv\tset\t5\n\trept\t3\n\tdb\tv\nv\tset\tv*2\n\tendm\n\tif\tv>30\n\tdb\t\"big\"\n\telse\n\tdb\t\"small\"\n\tendif\n",
 }
 
 
@@ -222,19 +256,16 @@ def source_text(path, dirs, seen=None):
 
 
 def sources(tier, r):
-    tests = aslrun.corpus()
-    if tier == "quick":
-        tests = list(tests)
-        r.shuffle(tests)
-        tests = tests[:40]
+    tests = list(aslrun.corpus())
+    r.shuffle(tests)            # the seed decides which rotation of the design a source gets
     out = []
     for (name, d, asm, flags) in tests:
         text = source_text(asm, [INCLUDE])
         out.append({"name": name, "copy": d, "flags": flags, "stringify": b"\\{" in text,
-                    "mechanism": mechanism(text)})
+                    "mechanism": mechanism(text), "big": len(text) > 400000})
     for name, text in GEN_PROGRAMS.items():
         out.append({"name": name, "copy": None, "text": text, "flags": [], "stringify": "\\{" in text,
-                    "mechanism": mechanism(text.encode("latin-1"))})
+                    "mechanism": mechanism(text.encode("latin-1")), "generated": True})
     return out
 
 
@@ -309,28 +340,50 @@ def main(tier):
     if og.violation:
         raise CheckError("Options_Gen: the generated sample is not pairwise covering: %s" % og.violation[:500])
     rep.model("Options_Gen", og)
-    vecs = [v for (tag, v) in og.printed if tag == "OUT"]
-    if not vecs:
+    outs = [v for (tag, v) in og.printed if tag == "OUT"]
+    if not outs:
         raise CheckError("Options_Gen printed no covering array")
-    vecs = vecs[-1]
-    rep.part("covering_array", vectors=len(vecs), factors=24)
+    design = outs[-1]
+    vecs, rots, allon = design["vectors"], design["rotations"], design["allon"]
+    singles = sorted(design["singles"], key=lambda v: json.dumps(v, sort_keys=True))
+    rep.part("covering_array", vectors=len(vecs), factors=24, singles=len(singles),
+             rotation_sizes=sorted({len(x) for x in rots}))
     r = rng("c17")
     srcs = sources(tier, r)
-    jobs = []           # (src, vec index | "plain" | "plain2" | ("again", i), job)
-    for s in srcs:
-        jobs.append((s, "plain", make_job(s, None)))
-        jobs.append((s, "plain2", make_job(s, None)))
-        for i, v in enumerate(vecs):
-            jobs.append((s, i, make_job(s, v)))
-        for i in r.sample(range(len(vecs)), 2):
-            jobs.append((s, ("again", i), make_job(s, vecs[i])))
-    with Phase("run %d configurations" % len(jobs)):
+    jobs = []           # (src, tag, job);  tag: "plain" | "plain2" | ("vec", i) | ("single", j) | "allon" | ("again", tag)
+    tagvec = {}
+    for idx, s in enumerate(srcs):
+        items = [("plain", None), ("plain2", None)]
+        if tier == "quick":
+            # rotating design: a 1-wise cover of all option values that starts at another vector of the pairwise
+            # sample for every source, + everything switched on at once
+            rot = rots[idx % len(rots)]
+            items += [(("vec", k - 1), vecs[k - 1]) for k in rot]
+            again = ["allon", ("vec", rot[0] - 1)]
+        else:
+            items += [(("vec", i), v) for i, v in enumerate(vecs)]
+            again = [("vec", i) for i in r.sample(range(len(vecs)), 2)]
+        items.append(("allon", allon))
+        if s.get("generated"):
+            items += [(("single", j), v) for j, v in enumerate(singles)]      # every option alone
+        if tier == "quick" and s.get("big"):
+            # a listing / cross reference / usage list of a megabyte source costs 10+ s per run: the quick tier keeps
+            # the listing-producing factors to the other 200 sources (thorough runs them here too)
+            items = [(t, None if v is None else dict(v, L="none", u=False, C=False, s=False, I=False, P=False, M=False,
+                                                     g="none" if v["g"] != "MAP" else "MAP"))
+                     for (t, v) in items]
+        byt = dict(items)
+        items += [(("again", t), byt[t]) for t in again]
+        for tag, v in items:
+            tagvec[(s["name"], tag)] = v
+            jobs.append((s, tag, make_job(s, v)))
+    with Phase("run %d configurations of %d sources" % (len(jobs), len(srcs))):
         results = drvrun.run_many(bld, [j for (_, _, j) in jobs])
     plain, first, failing = {}, {}, []
     for (s, tag, job), res in zip(jobs, results):
         if tag == "plain":
             plain[s["name"]] = (job, res)
-        elif isinstance(tag, int):
+        elif not (isinstance(tag, tuple) and tag[0] == "again"):
             first[(s["name"], tag)] = (job, res)
     for (s, tag, job), res in zip(jobs, results):
         rep.evaluated()
@@ -349,15 +402,14 @@ def main(tier):
         ref = pr.files.get(pj["_p"])
         got = res.files.get(job["_p"])
         if got != ref or res.rc != pr.rc:
-            vec = vecs[tag] if isinstance(tag, int) else (vecs[tag[1]] if isinstance(tag, tuple) else None)
-            failing.append((s, tag, vec, job, res))
+            failing.append((s, tag, tagvec[(name, tag)], job, res))
             continue
-        if isinstance(tag, tuple):
+        if isinstance(tag, tuple) and tag[0] == "again":
             # repeated run of the same vector: listing / MAP / share reproducible apart from the stamp
             j0, r0 = first[(name, tag[1])]
             a = {k: mask(v) for k, v in r0.files.items() if k.lower().endswith(REPRO)}
             b = {k: mask(v) for k, v in res.files.items() if k.lower().endswith(REPRO)}
-            v = vecs[tag[1]]
+            v = tagvec[(name, tag)]
             if v["L"] == "l" and v["q"]:
                 a["<stdout>"] = mask(r0.out.encode("latin-1"))
                 b["<stdout>"] = mask(res.out.encode("latin-1"))
@@ -378,10 +430,12 @@ def main(tier):
     for (s, tag, job) in jobs[2:5]:
         rep.sample({"source": s["name"], "argv": job["argv"], "env": job.get("env"), "cwd": job.get("cwd")})
     return rep.finish(
-        rule="configurations = TLC-built pairwise covering array over 24 factors (report options, option source, cwd, "
-             "-o, LANG/LC_ALL) applied to golden sources (quick: 40 seed-chosen, thorough: all 201) and 7 generated "
-             "programs, plus a repeated plain run and 2 repeated vector runs per source; distinct = distinct (source, "
-             "argv, env); every evaluation compares a code file with the plain run's", exhaustive=False)
+        rule="configurations = TLC-built designs over 24 factors (report options, option source, cwd, -o, LANG/LC_ALL): "
+             "quick = all 201 golden + 14 generated sources, each under a rotating 1-wise cover of the pairwise sample + "
+             "AllOn (every (source, option value) pair); thorough = each under the whole pairwise sample + AllOn; generated "
+             "sources also under every single option; plus a repeated plain run and 2 repeated vector runs per source; "
+             "distinct = distinct (source, argv, env); every evaluation compares a code file with the plain run's",
+        exhaustive=False)
 
 
 def replay(path):
